@@ -41,7 +41,8 @@ ASSUMPTIONS = [
     "exact-surface fits are only judged for float inputs (integer counts cannot put a CoM exactly on a plane) and the parabola fit only for scans >= 3x3 (full-rank design)",
     "shifts are judged against np.roll only for exactly integer fitted origins: target (0,0) = roll by -origin (the property), integer targets = roll by (target - origin) (shift_origin_to's documented 'target origin position'); fractional origins/targets are judged only differentially (history vs fresh twin)",
     "global_state cases: torch.set_float32_matmul_precision('high'/'medium'), torch.set_default_dtype(float64) and quantem config dtype_real/dtype_complex=float64/complex128 (set at run time through config.set, plain or as context manager) are applied around the calls and restored in a finally block; the origin model is float32 by construction in every state and must reproduce its default-state result bitwise-close (1e-5), the dataset model follows the configured dtype and is judged at 1e-9 px under float64; torch.autocast is not exercised (it is an explicit request for reduced precision; on the unchanged tree fit_origin_background(plane) is 0.06 px off inside autocast(bfloat16))",
-    "workflow_integer cases: positive patterns whose centre of mass is a whole pixel by construction (background + compensated deposit); the origins the workflow itself fits (calculate -> fit -> shift / forward) are whole pixels within delta ~ 1e-6..1e-4 px and the shifted patterns must be np.roll(pattern, -round(origin)) within 2e-3 + 8*delta of the pattern maximum (measured 1.7e-5; a roll by the neighbouring pixel is O(1)); destination pixels whose source lies within 2 px of the detector edge are not judged, because shift_origin_to pads with zeros instead of wrapping when it interpolates across the seam - this only matters for non-integer origins, which the property does not cover (measured on the unchanged tree: 1e-3 of the maximum on the seam, 8e-6 elsewhere)",
+    "workflow_integer cases: positive patterns whose centre of mass is a whole pixel by construction (background + compensated deposit); the origins the workflow itself fits (calculate -> fit -> shift / forward) are whole pixels within delta ~ 1e-6..1e-4 px and the shifted patterns must be np.roll(pattern, -round(origin)) within 5e-3 + 8*delta of the pattern maximum (measured 4.4e-5; a roll by the neighbouring pixel is O(1)); destination pixels whose source lies within 2 px of the detector edge are not judged, because shift_origin_to pads with zeros instead of wrapping when it interpolates across the seam - this only matters for non-integer origins, which the property does not cover (measured on the unchanged tree: 1e-3 of the maximum on the seam, 8e-6 elsewhere)",
+    "the float32 CoM bound scales with the detector size beyond 20 px (1e-3 px * max(H, W) / 20; measured 4.6e-5 px on detectors up to 128 px)",
     "fit_large cases: exact planes / constants over 6e4..5e5 probe positions (1x1 detector, default grid or explicit positions with 0.2..3 A steps), total descan <= 8 px; float32 PCA bound 5e-2 px (measured floor 2.5e-4 on 40x2600), fit_origin in float64 1e-6 px",
     "cross-instance: a fresh model created after a history (incl. shifts / forward() to non-default targets on another instance with the same detector shape) must reproduce the fresh model created before it",
     "explicit probe positions for the PCA plane fit are non-collinear with slopes |a| <= 2 px per position unit",
@@ -921,7 +922,7 @@ def _run_workflow_integer(spec, idx, ctx):
             m.fit_origin_background(fit_method=fit)
             m.shift_origin_to(max_batch_size=b, mode=mode)
         om, of = _np(m.origin_measured), _np(m.origin_fitted)
-        _judge_com(ctx, om[:, 0].reshape(nr, nc), om[:, 1].reshape(nr, nc), orr, occ, TOL_COM, impl="origin_model", path="workflow_integer", entry=spec["entry"], masked=False, batch="na")
+        _judge_com(ctx, om[:, 0].reshape(nr, nc), om[:, 1].reshape(nr, nc), orr, occ, TOL_COM * max(1.0, max(H, W) / 20.0), impl="origin_model", path="workflow_integer", entry=spec["entry"], masked=False, batch="na")
         delta = _maxabs(of - K)
         if not ctx.close(delta, TOL_FIT, "fit_exact_surface_origin_model", lambda: "origin_fitted differs from the exact integer %s the measured origins lie on (fit_method=%s)" % (spec["surface"], fit), impl="origin_model", path="workflow", entry="fit_origin_background", masked=False, fit=fit, surface=spec["surface"]):
             continue
@@ -938,7 +939,7 @@ def _run_workflow_integer(spec, idx, ctx):
             scol = (np.arange(W) + int(K[p, 1])) % W
             ok = np.ix_((sr >= 2) & (sr <= H - 3), (scol >= 2) & (scol <= W - 3))
             err = max(err, _maxabs(S[p][ok] - ref[ok]))
-        ctx.close(err / scale, 2e-3 + 8.0 * delta, "shift_near_integer_is_roll", lambda: "origins fitted by the workflow are whole pixels within %.1e px, but shifted_tensor is not np.roll(pattern, -round(origin)) away from the wrap seam (mode=%s, max_batch_size=%r)" % (delta, mode, b), batch="none" if b is None else "1" if b == 1 else "mid", **f)
+        ctx.close(err / scale, 5e-3 + 8.0 * delta, "shift_near_integer_is_roll", lambda: "origins fitted by the workflow are whole pixels within %.1e px, but shifted_tensor is not np.roll(pattern, -round(origin)) away from the wrap seam (mode=%s, max_batch_size=%r)" % (delta, mode, b), batch="none" if b is None else "1" if b == 1 else "mid", **f)
     ctx.nontrivial(("workflow_integer", tuple(spec["scan"]), tuple(spec["det"]), spec["surface"], fit, mode, spec["entry"]), H != W and below and bool(np.any(K[:, 0] != K[:, 1])))
     ctx.observe(n=n, max_abs_fitted_minus_integer=worst_delta, some_origin_below_its_integer=below, origins=K[:4], fit=fit, mode=mode)
 
